@@ -9,12 +9,12 @@
      `value is not None and is_right_type(value)`               record) and the slots of removed rows
    ChoiceColumn._rename_cell_choice                           rename_cell Choice
    ChoiceListColumn._rename_cell_choice                       rename_cell ChoiceList
-   self.BulkUpdateRecord(table_id, row_ids, {col_id: values}) trim (trim_update_action drops no-op rows), then
-                                                              docactions' assertion that every remaining row id is a
-                                                              record (ErrAssertion otherwise), then apply_updates
+   pairs = [... if r in table.row_ids]                        only_records (the repair of commit 789e828)
+   self.BulkUpdateRecord(table_id, row_ids, {col_id: values}) trim (trim_update_action drops no-op rows), docactions'
+                                                              assertion that every row id is a record, apply_updates
    json.loads(rec.filter) for the filters of this column      filt: FEmpty (falsy text), FObj entries, FNotObj
-   {k: [rename(v) for v in values] for k, values in ...}      rename_entry: iterating a list / a str (its characters) /
-                                                              a dict (its keys) / anything else (TypeError)
+   {k: [rename(v) for v in values] if isinstance(values,      rename_entry: lists are mapped, any other entry is kept
+      list) else values ...}                                    (the repair of commit 9e0465d)
    if col_filter != new_filter: ... json.dumps(new_filter)    Some new (the filter text is rewritten) / None (untouched)
 
    Values are PyVal.val; a choice is VStr s.  The rename targets are strings (see the check's ASSUMPTIONS). *)
@@ -94,70 +94,69 @@ Arguments Err {A} e.
 
 (* Engine.trim_update_action (called by doBulkUpdateRecord before the doc action is built): rows whose new
    value == the stored one are dropped *)
+(* RenameChoices keeps only the pairs whose row id is a record (`if r in table.row_ids`): rename_choices scans
+   the whole storage, also slot 0 and the slots of removed rows, which hold the default value *)
+Definition only_records (ids : list Z) (ups : list (nat * val)) : list (nat * val) :=
+  filter (fun u => is_record ids (fst u)) ups.
+
+(* Engine.trim_update_action (called by doBulkUpdateRecord before the doc action is built): rows whose new
+   value == the stored one are dropped *)
 Definition trim (data : list val) (ups : list (nat * val)) : list (nat * val) :=
   filter (fun u => negb (py_eq (snd u) (nth (fst u) data VNone))) ups.
 
-(* the data half of RenameChoices on a non-formula column *)
+(* the data half of RenameChoices on a non-formula column; the assertion of docactions.BulkUpdateRecord is
+   still modelled (it is proved unreachable) *)
 Definition rename_column (k : ckind) (ren : renames) (ids : list Z) (data : list val) : result (list val) :=
-  let ups := trim data (updates k ren data) in
+  let ups := trim data (only_records ids (updates k ren data)) in
   if forallb (fun u => is_record ids (fst u)) ups then Ok (apply_updates data ups) else Err ErrAssertion.
 
 (* ---- filters *)
 
 Inductive fentry :=
 | FList (l : list val)          (* "included": [...] *)
-| FStr (s : str)                (* a JSON string *)
-| FDict (keys : list str)       (* a JSON object, e.g. a relative-date bound; only its keys matter *)
-| FAtom.                        (* number, true/false, null, e.g. "min": 5 *)
+| FOther (tok : Z).             (* any other JSON value (a number, a relative-date object, ...), identified by a
+                                   token: `... if isinstance(values, list) else values` keeps it as it is *)
 
 Inductive filt :=
 | FEmpty                        (* '' : `if not rec.filter: continue` *)
 | FObj (entries : list (str * fentry))
 | FNotObj.                      (* JSON that is not an object: .items() raises AttributeError *)
 
-Definition rename_entry (ren : renames) (e : fentry) : result (list val) :=
+Definition rename_entry (ren : renames) (e : fentry) : fentry :=
   match e with
-  | FList l => Ok (map (rename_elem ren) l)
-  | FStr s => Ok (map (fun ch => VStr (ren_apply ren [ch])) s)
-  | FDict keys => Ok (map (fun k => VStr (ren_apply ren k)) keys)
-  | FAtom => Err ErrTypeError
+  | FList l => FList (map (rename_elem ren) l)
+  | FOther t => FOther t
   end.
 
-Fixpoint rename_entries (ren : renames) (es : list (str * fentry)) : result (list (str * list val)) :=
-  match es with
-  | [] => Ok []
-  | (k, e) :: rest =>
-      match rename_entry ren e with
-      | Err x => Err x
-      | Ok l => match rename_entries ren rest with
-                | Err x => Err x
-                | Ok r => Ok ((k, l) :: r)
-                end
-      end
+Definition rename_entries (ren : renames) (es : list (str * fentry)) : list (str * fentry) :=
+  map (fun ke => (fst ke, rename_entry ren (snd ke))) es.
+
+Definition fentry_eqb (a b : fentry) : bool :=
+  match a, b with
+  | FList l, FList m => vals_eqb l m
+  | FOther s, FOther t => Z.eqb s t
+  | _, _ => false
   end.
 
-(* col_filter == new_filter (same keys by construction; a str or dict never equals the list that replaces it) *)
-Fixpoint entries_same (es : list (str * fentry)) (new : list (str * list val)) : bool :=
-  match es, new with
+(* col_filter == new_filter *)
+Fixpoint entries_eqb (a b : list (str * fentry)) : bool :=
+  match a, b with
   | [], [] => true
-  | (_, FList l) :: es', (_, l') :: new' => vals_eqb l l' && entries_same es' new'
+  | (i, x) :: a', (j, y) :: b' => str_eqb i j && fentry_eqb x y && entries_eqb a' b'
   | _, _ => false
   end.
 
 (* Some new = the record's filter is rewritten to json.dumps(new); None = the record is not touched *)
-Definition rename_filter (ren : renames) (f : filt) : result (option (list (str * list val))) :=
+Definition rename_filter (ren : renames) (f : filt) : result (option (list (str * fentry))) :=
   match f with
   | FEmpty => Ok None
   | FNotObj => Err ErrAttributeError
-  | FObj es => match rename_entries ren es with
-               | Err x => Err x
-               | Ok new => Ok (if entries_same es new then None else Some new)
-               end
+  | FObj es => let new := rename_entries ren es in Ok (if entries_eqb es new then None else Some new)
   end.
 
 (* the loop over filters.filter_records(colRef=colRef); records of other columns are never looked at *)
 Fixpoint rename_filters (ren : renames) (colref : Z) (fs : list (Z * filt))
-  : result (list (option (list (str * list val)))) :=
+  : result (list (option (list (str * fentry)))) :=
   match fs with
   | [] => Ok []
   | (cr, f) :: rest =>
@@ -178,7 +177,7 @@ Record state := mkState {
   s_filters : list (Z * filt)           (* _grist_Filters records in row id order: colRef, parsed filter *)
 }.
 
-Definition outcome := (list (str * list val) * list (option (list (str * list val))))%type.
+Definition outcome := (list (str * list val) * list (option (list (str * fentry))))%type.
 
 (* the target column is looked up by id among the table's columns; the others are not touched *)
 Fixpoint rename_cols (k : ckind) (ren : renames) (ids : list Z) (cid : str) (cols : list (str * list val))
@@ -236,61 +235,55 @@ Definition spec_cell (k : ckind) (ren : renames) (v : val) : val :=
   | _, _ => v
   end.
 
-(* a saved filter in by-value form: every entry is a list *)
-Definition by_value_entry (e : str * fentry) : bool := match snd e with FList _ => true | _ => false end.
-Definition well_formed_filter (f : filt) : bool :=
-  match f with FEmpty => true | FObj es => forallb by_value_entry es | FNotObj => false end.
 
-Definition entry_list (e : fentry) : list val := match e with FList l => l | _ => [] end.
+(* the target column afterwards: every record's cell substituted, the other storage slots as they were *)
+Fixpoint spec_data_from (k : ckind) (ren : renames) (ids : list Z) (i : nat) (data : list val) : list val :=
+  match data with
+  | [] => []
+  | v :: t => (if is_record ids i then spec_cell k ren v else v) :: spec_data_from k ren ids (S i) t
+  end.
+Definition spec_data (k : ckind) (ren : renames) (ids : list Z) (data : list val) : list val :=
+  spec_data_from k ren ids 0 data.
 
-(* the filter as the object of lists it is, and the same with every list mapped through the substitution *)
-Definition filter_content (es : list (str * fentry)) : list (str * list val) :=
-  map (fun e => (fst e, entry_list (snd e))) es.
-Definition spec_entries (ren : renames) (es : list (str * fentry)) : list (str * list val) :=
-  map (fun e => (fst e, map (rename_elem ren) (entry_list (snd e)))) es.
+(* a saved filter: the by-value lists substituted, every other entry (range bounds) kept *)
+Definition spec_entries (ren : renames) (es : list (str * fentry)) : list (str * fentry) :=
+  map (fun ke => (fst ke, match snd ke with FList l => FList (map (rename_elem ren) l) | o => o end)) es.
 
 (* Some new content when the substitution changes the filter, None when it leaves it as it is *)
-Definition spec_filter (ren : renames) (f : filt) : option (list (str * list val)) :=
+Definition spec_filter (ren : renames) (f : filt) : option (list (str * fentry)) :=
   match f with
-  | FObj es => if cols_eqb (filter_content es) (spec_entries ren es) then None else Some (spec_entries ren es)
+  | FObj es => if entries_eqb es (spec_entries ren es) then None else Some (spec_entries ren es)
   | _ => None
   end.
 
 (* the whole action, as the property describes it *)
-Definition spec_cols (k : ckind) (ren : renames) (cid : str) (is_formula : bool) (cols : list (str * list val))
-  : list (str * list val) :=
+Definition spec_cols (k : ckind) (ren : renames) (ids : list Z) (cid : str) (is_formula : bool)
+  (cols : list (str * list val)) : list (str * list val) :=
   if is_formula then cols
-  else map (fun c => if str_eqb (fst c) cid then (fst c, map (spec_cell k ren) (snd c)) else c) cols.
+  else map (fun c => if str_eqb (fst c) cid then (fst c, spec_data k ren ids (snd c)) else c) cols.
 
-Definition spec_filters (ren : renames) (colref : Z) (fs : list (Z * filt)) : list (option (list (str * list val))) :=
+Definition spec_filters (ren : renames) (colref : Z) (fs : list (Z * filt)) : list (option (list (str * fentry))) :=
   map (fun cf => if Z.eqb (fst cf) colref then spec_filter ren (snd cf) else None) fs.
 
-(* side conditions under which the unchanged code performs the action (see the refuted statements in Props/C39.v):
-   no slot that is not a record (slot 0, slots of removed rows) holds a value the mapping changes ... *)
-Definition safe_column (k : ckind) (ren : renames) (ids : list Z) (data : list val) : Prop :=
-  forall i v n, nth_error data i = Some v -> rename_cell k ren v = Some n -> n <> v -> is_record ids i = true.
-
-Definition safe_state (st : state) (cid : str) (k : ckind) (is_formula : bool) (ren : renames) : Prop :=
-  is_formula = false -> forall c data, In (c, data) (s_cols st) -> str_eqb c cid = true ->
-  safe_column k ren (s_ids st) data.
-
-(* ... and every saved filter of the column is empty or an object of lists *)
-Definition filters_well_formed (colref : Z) (fs : list (Z * filt)) : Prop :=
-  forall cr f, In (cr, f) fs -> cr = colref -> well_formed_filter f = true.
+(* the one remaining side condition: the saved filter text of the column is empty or a JSON object (what the
+   application stores); other JSON makes `.items()` raise AttributeError *)
+Definition is_object_filter (f : filt) : bool := match f with FNotObj => false | _ => true end.
+Definition filters_are_objects (colref : Z) (fs : list (Z * filt)) : Prop :=
+  forall cr f, In (cr, f) fs -> cr = colref -> is_object_filter f = true.
 
 (* ------------------------------------------------------------------------------------------------
    Equality tests for the generated correspondence cases. *)
 
-Definition ofilter_eqb (a b : option (list (str * list val))) : bool :=
+Definition ofilter_eqb (a b : option (list (str * fentry))) : bool :=
   match a, b with
   | None, None => true
-  | Some x, Some y => cols_eqb x y
+  | Some x, Some y => entries_eqb x y
   | _, _ => false
   end.
 
-Fixpoint ofilters_eqb (a b : list (option (list (str * list val)))) : bool :=
+Fixpoint ofilters_eqb (a b : list (option (list (str * fentry)))) : bool :=
   match a, b with
-  | [], [] => true
+  | [] , [] => true
   | x :: a', y :: b' => ofilter_eqb x y && ofilters_eqb a' b'
   | _, _ => false
   end.
